@@ -23,6 +23,7 @@ import (
 	"sync"
 
 	"github.com/fsnotify/fsnotify"
+	"github.com/wi1dcard/fingerproxy/pkg/verifhook"
 )
 
 var (
@@ -134,6 +135,7 @@ func (cw *CertWatcher) Watch() {
 func (cw *CertWatcher) ReadCertificate() error {
 	cert, err := tls.LoadX509KeyPair(cw.certPath, cw.keyPath)
 	if err != nil {
+		verifhook.At("certwatcher.reload", cw, err)
 		return err
 	}
 
@@ -142,11 +144,14 @@ func (cw *CertWatcher) ReadCertificate() error {
 	cw.Unlock()
 
 	vlogf("updated current TLS certificate")
+	verifhook.At("certwatcher.reload", cw, nil)
 
 	return nil
 }
 
 func (cw *CertWatcher) handleEvent(event fsnotify.Event) {
+	verifhook.At("certwatcher.event", cw, event.Op.String(), event.Name)
+	defer verifhook.At("certwatcher.event.done", cw)
 	// Only care about events which may modify the contents of the file.
 	if !(isWrite(event) || isRemove(event) || isCreate(event)) {
 		return
